@@ -196,21 +196,26 @@ def run(repo: Repo, rep: Report, tier: str) -> None:
     apps = [c for c in calls_in(tr.node, "append") if isinstance(c.func, ast.Attribute) and isinstance(c.func.value, ast.Name) and c.func.value.id in del_lists]
     rep.floor("C18-R5", "trim decisions", len(apps), 1)
     dut = DefUse(tr)
-    cov = [n for n in walk_local(tr.node) if isinstance(n, ast.If) and isinstance(n.test, ast.BoolOp) and isinstance(n.test.op, ast.And) and len(n.test.values) == 2
-           and all(isinstance(v, ast.Compare) and isinstance(v.ops[0], ast.LtE) for v in n.test.values) and any(isinstance(s_, ast.Assign) and norm(s_.value) == "True" for s_ in n.body)]
-    flag_names = {s_.targets[0].id for n in cov for s_ in n.body if isinstance(s_, ast.Assign) and isinstance(s_.targets[0], ast.Name) and norm(s_.value) == "True"}
+    # the coverage flag: a local set to True under a conjunction of two `<=` comparisons
+    cov = []
+    for n_ in walk_local(tr.node):
+        if isinstance(n_, ast.Assign) and isinstance(n_.targets[0], ast.Name) and norm(n_.value) == "True":
+            for t_, pol_ in guard_chain(tr, n_, pmt):
+                if pol_ and isinstance(t_, ast.BoolOp) and isinstance(t_.op, ast.And) and len(t_.values) == 2 and all(isinstance(v, ast.Compare) and isinstance(v.ops[0], ast.LtE) for v in t_.values):
+                    cov.append((n_, t_))
+    flag_names = {n_.targets[0].id for n_, _t in cov}
     for a in apps:
         gs = cguards(tr, a)
         raw = [(norm(t), pol) for t, pol in guard_chain(tr, __import__("fv.rules.util", fromlist=["stmt_of"]).stmt_of(tr, a), pmt)]
-        flagged = any("is_power_pole" in g and g.startswith("not ") and not pol for g, pol in gs)
-        uncovered = any(pol and g.startswith("not ") and g[4:] in flag_names for g, pol in raw)
+        flagged = any("is_power_pole" in g and not g.startswith("not ") and pol for g, pol in gs)
+        uncovered = any((not pol) and g in flag_names for g, pol in raw)
         rep.check(flagged and uncovered, "C18-R5", "only flagged, non-covering poles are trimmed", "; ".join(("" if p else "NOT ") + g[:80] for g, p in gs), tr.loc(a))
     ok = False
     shown = ""
     if cov:
-        t0, t1 = (ctr.text(v) for v in cov[0].test.values)
+        t0, t1 = (ctr.text(v, at=cov[0][0]) for v in cov[0][1].values)
         shown = f"{t0[-60:]} and {t1[-60:]}"
         m0 = re.fullmatch(r"abs\((.+)\[0\] - (.+)\[0\]\) <= (.+)", t0)
         m1 = re.fullmatch(r"abs\((.+)\[1\] - (.+)\[1\]\) <= (.+)", t1)
         ok = m0 is not None and m1 is not None and m0.group(3) == m1.group(3) and "supply_radius" in m0.group(3) and {m0.group(1), m0.group(2)} == {m1.group(1), m1.group(2)}
-    rep.check(ok, "C18-R5", "coverage test is |dx| <= r and |dy| <= r", shown, tr.loc(cov[0]) if cov else tr.loc())
+    rep.check(ok, "C18-R5", "coverage test is |dx| <= r and |dy| <= r", shown, tr.loc(cov[0][0]) if cov else tr.loc())
